@@ -149,11 +149,27 @@ func genC17(seed uint64, tier string) *world.Scenario {
 				pat = "nosuchchip"
 			}
 			if last && missing == "fan-index" {
+				// an index the named chip does not have - preferably one that another chip does have
 				idx = 19
+				own := len(chipFanChannels(sc, f.Chip))
+				for c := range sc.Chips {
+					if n := len(chipFanChannels(sc, c)); c != f.Chip && n > own {
+						idx = own + 1 + r.Intn(n-own)
+					}
+				}
 				f.ByIndex = true
 			}
 			if last && missing == "fan-channel" {
+				// a channel the named chip does not have - preferably one that another chip does have
 				ch = 9
+				own := chipFanChannels(sc, f.Chip)
+				for c := range sc.Chips {
+					for _, oc := range chipFanChannels(sc, c) {
+						if c != f.Chip && !containsInt(own, oc) && oc != f.Channel {
+							ch = oc
+						}
+					}
+				}
 				f.ByIndex = false
 			}
 			w.p("    hwmon:\n      platform: %q", pat)
@@ -185,6 +201,12 @@ func genC17(seed uint64, tier string) *world.Scenario {
 		}
 		if last && missing == "sensor-index" {
 			idx = 23
+			own := len(chipTempInputs(sc, s.Chip))
+			for c := range sc.Chips {
+				if n := len(chipTempInputs(sc, c)); c != s.Chip && n > own {
+					idx = own + 1 + r.Intn(n-own)
+				}
+			}
 		}
 		w.p("  - id: %s\n    hwmon:\n      platform: %q\n      index: %d", s.ID, pat, idx)
 	}
@@ -443,5 +465,28 @@ func removeInt(xs []int, v int) []int {
 			out = append(out, x)
 		}
 	}
+	return out
+}
+
+// chipFanChannels / chipTempInputs: the channels that exist on a chip (configured and unconfigured ones).
+func chipFanChannels(sc *world.Scenario, chip int) []int {
+	out := append([]int{}, sc.Chips[chip].ExtraFans...)
+	for _, f := range sc.Fans {
+		if f.Kind == "hwmon" && f.Chip == chip && !containsInt(out, f.Channel) {
+			out = append(out, f.Channel)
+		}
+	}
+	sortInts(out)
+	return out
+}
+
+func chipTempInputs(sc *world.Scenario, chip int) []int {
+	out := append([]int{}, sc.Chips[chip].ExtraTemps...)
+	for _, s := range sc.Sensors {
+		if s.Kind == "hwmon" && s.Chip == chip && !containsInt(out, s.TempN) {
+			out = append(out, s.TempN)
+		}
+	}
+	sortInts(out)
 	return out
 }
